@@ -11,9 +11,11 @@
 (*                                                                           *)
 (* TLC enumerates every history of every scenario below (a scenario = a set  *)
 (* of configurations, a set of prefixes, an alphabet of calls and a length)  *)
-(* and prints each maximal history once; the harness performs them on the    *)
-(* real objects and SocAllocTrace judges every prefix.  Nothing here says    *)
-(* which calls succeed: that is the implementation's answer.                 *)
+(* and prints each maximal history once (Mode = "x"); scenarios marked       *)
+(* mode "s" (long histories over wide alphabets) are sampled instead with    *)
+(* tlc -simulate -seed.  The harness performs the histories on the real      *)
+(* objects and SocAllocTrace judges every prefix.  Nothing here says which   *)
+(* calls succeed: that is the implementation's answer.                       *)
 (*                                                                           *)
 (* The universe is scaled: the bus address space has AS = 16 units; the      *)
 (* harness maps a unit to 2^(address_width-4) bytes (2^28 on the 32-bit bus, *)
@@ -21,7 +23,9 @@
 EXTENDS Integers, Sequences, FiniteSets, TLC
 
 CONSTANTS Family,      \* "bus" | "loc" | "plat"
-          Tier         \* "quick" | "thorough"
+          Tier,        \* "quick" | "thorough"
+          Mode         \* "x": scenarios enumerated exhaustively (BFS, every history printed)
+                       \* "s": scenarios too large for that, sampled with tlc -simulate -seed
 
 VARIABLES sid, cfg, h, left
 vars == <<sid, cfg, h, left>>
@@ -66,48 +70,56 @@ AnyKind    == {<<0, 0>>, <<0, 1>>, <<1, 0>>}        \* <<linker, slave>>
 
 BusScenarios ==
   { \* all pairs (thorough: triples) of fixed regions: overlap on rounded sizes, alignment
-    [id |-> "pair", cfgs |-> IF Quick THEN {WB32} ELSE {WB32, WB64, AXL32, WB32X}, pres |-> {<<>>}, len |-> 2,
+    [mode |-> "x", id |-> "pair", cfgs |-> IF Quick THEN {WB32} ELSE {WB32, WB64, AXL32, WB32X}, pres |-> {<<>>}, len |-> 2,
      alpha |-> Fx({0, 1, 2, 3, 4, 6, 8, 12, 15}, 1..5, {1}, AnyKind)],
-    [id |-> "triple", cfgs |-> {WB32}, pres |-> {<<>>}, len |-> 3,
+    [mode |-> "x", id |-> "triple", cfgs |-> {WB32}, pres |-> {<<>>}, len |-> 3,
      alpha |-> IF Quick THEN Fx({0, 2, 4, 8}, {1, 3, 4}, {1}, {<<0, 1>>, <<1, 0>>})
                ELSE Fx({0, 2, 3, 4, 8, 12}, {1, 3, 4, 5}, {1}, AnyKind)],
     \* first-fit allocation of cached regions between/after fixed ones, exhaustion of the space
-    [id |-> "autoc", cfgs |-> IF Quick THEN {WB32, WB64} ELSE {WB32, WB64, AXL32}, pres |-> {<<>>},
+    [mode |-> "x", id |-> "autoc", cfgs |-> IF Quick THEN {WB32, WB64} ELSE {WB32, WB64, AXL32}, pres |-> {<<>>},
      len |-> IF Quick THEN 3 ELSE 4,
      alpha |-> Au({1, 2, 3, 4, 5, 8}, {1}, {1}) \cup Fx({0, 1, 4, 8, 12}, {1, 3, 4}, {1}, PlainSlave)
                \cup Fx({0, 4}, {3}, {1}, {<<1, 0>>})],
-    [id |-> "autodeep", cfgs |-> {WB32}, pres |-> {<<>>}, len |-> IF Quick THEN 4 ELSE 5,
+    [mode |-> "x", id |-> "autodeep", cfgs |-> {WB32}, pres |-> {<<>>}, len |-> IF Quick THEN 4 ELSE 5,
      alpha |-> Au({1, 3, 4, 5}, {1}, {1}) \cup Fx({1, 4, 8}, {1, 3}, {1}, PlainSlave)],
     \* uncached (IO) allocation inside 0-2 IO regions of power-of-two and other sizes
-    [id |-> "iou", cfgs |-> IF Quick THEN {WB32} ELSE {WB32, WB64},
+    [mode |-> "x", id |-> "iou", cfgs |-> IF Quick THEN {WB32} ELSE {WB32, WB64},
      pres |-> {<<>>, <<IoT(8, 4)>>, <<IoT(8, 3)>>, <<IoT(8, 5)>>, <<IoT(0, 3), IoT(8, 6)>>, <<IoT(4, 4), IoT(8, 8)>>},
      len |-> IF Quick THEN 3 ELSE 4,
      alpha |-> Au({1, 2, 3, 4}, {0}, {1}) \cup Au({1}, {1}, {1})
                \cup Fx({8, 10, 11, 12, 13}, {1}, {0, 1}, PlainSlave)],
-    [id |-> "ioudeep", cfgs |-> {WB32},
+    [mode |-> "x", id |-> "ioudeep", cfgs |-> {WB32},
      pres |-> {<<IoT(8, 3)>>, <<IoT(8, 5)>>, <<IoT(0, 3), IoT(8, 6)>>, <<IoT(8, 7)>>},
      len |-> IF Quick THEN 4 ELSE 5,
      alpha |-> Au({1, 2, 4}, {0}, {1}) \cup Fx({11, 13}, {1}, {0}, PlainSlave)],
     \* IO regions declared in any order, also overlapping ones, then regions
-    [id |-> "iopair", cfgs |-> {WB32}, pres |-> {<<>>}, len |-> 3,
+    [mode |-> "x", id |-> "iopair", cfgs |-> {WB32}, pres |-> {<<>>}, len |-> 3,
      alpha |-> Io({0, 4, 8, 12}, {3, 4, 5}) \cup Au({1}, {0}, {1}) \cup Fx({8, 12}, {1}, {0, 1}, PlainSlave)],
     \* names: regions, IO regions, slaves and masters with fresh and re-used names
-    [id |-> "names", cfgs |-> {WB32}, pres |-> {<<>>}, len |-> IF Quick THEN 3 ELSE 4,
+    [mode |-> "x", id |-> "names", cfgs |-> {WB32}, pres |-> {<<>>}, len |-> IF Quick THEN 3 ELSE 4,
      alpha |-> LET A == Fx({0, 4, 8}, {1}, {1}, {<<0, 0>>, <<0, 1>>}) \cup Io({12}, {4})
                IN  A \cup Dup(A, 1) \cup Dup(A, 2)
                    \cup {<<"att", j, 0, 0, 0, 0, 0, 0>> : j \in {0, 1, 2}}
                    \cup {<<"mst", j, 0, 0, 0, 0, 0, 0>> : j \in {0, -1, 1}}],
     \* zero or one master: no interconnect / point-to-point paths of finalize
-    [id |-> "masters", cfgs |-> {WBM0, WBM1}, pres |-> {<<>>}, len |-> 3,
+    [mode |-> "x", id |-> "masters", cfgs |-> {WBM0, WBM1}, pres |-> {<<>>}, len |-> 3,
      alpha |-> Fx({0, 2, 4}, {1, 4}, {1}, {<<0, 0>>, <<0, 1>>}) \cup Au({1, 3}, {1}, {1})
                \cup {<<"mst", 0, 0, 0, 0, 0, 0, 0>>}],
     \* whole-space region, origin beyond the space, disabled decoder
-    [id |-> "edge", cfgs |-> {WB32}, pres |-> {<<>>}, len |-> IF Quick THEN 2 ELSE 3,
+    [mode |-> "x", id |-> "edge", cfgs |-> {WB32}, pres |-> {<<>>}, len |-> IF Quick THEN 2 ELSE 3,
      alpha |-> LET A == Fx({0, 8, 16}, {1, 8, 16}, {1}, {<<0, 0>>, <<0, 1>>})
                IN  A \cup NoDec(A) \cup Au({8, 16}, {1}, {1})],
     \* IO check disabled (CPU-less SoC): fixed uncached regions anywhere
-    [id |-> "noioc", cfgs |-> {WBNC}, pres |-> {<<>>, <<IoT(8, 4)>>}, len |-> 3,
-     alpha |-> Fx({0, 8, 12}, {1, 3}, {0, 1}, PlainSlave) \cup Au({1, 3}, {0, 1}, {1})]
+    [mode |-> "x", id |-> "noioc", cfgs |-> {WBNC}, pres |-> {<<>>, <<IoT(8, 4)>>}, len |-> 3,
+     alpha |-> Fx({0, 8, 12}, {1, 3}, {0, 1}, PlainSlave) \cup Au({1, 3}, {0, 1}, {1})],
+    \* slaves on linker regions (as LiteX does for the ethmac rx/tx buffers inside their parent)
+    [mode |-> "x", id |-> "lkslave", cfgs |-> {WB32}, pres |-> {<<>>}, len |-> IF Quick THEN 2 ELSE 3,
+     alpha |-> Fx({0, 2, 4}, {2, 4}, {1}, {<<0, 0>>, <<0, 1>>, <<1, 0>>, <<1, 1>>})],
+    \* long mixed histories over a wide alphabet: sampled (tlc -simulate), not enumerated
+    [mode |-> "s", id |-> "deepmix", cfgs |-> {WB32, WB64},
+     pres |-> {<<>>, <<IoT(8, 5)>>, <<IoT(8, 8)>>, <<IoT(0, 3), IoT(8, 6)>>}, len |-> 7,
+     alpha |-> Au({1, 2, 3, 4, 5}, {0, 1}, {1}) \cup Au({1, 2, 3}, {0, 1}, {0})
+               \cup Fx({0, 1, 2, 4, 6, 8, 12, 14}, {1, 2, 3}, {0, 1}, AnyKind)]
   }
 
 BusResolve(hh, t) ==
@@ -126,17 +138,24 @@ IrqCfg(id, n)          == <<id, "irq", n, n, 0>>
 LocCfgs == {CsrCfg("csr4", 14, 16384), IrqCfg("irq4", 4), IrqCfg("irq2", 2)}
            \cup (IF Quick THEN {} ELSE {CsrCfg("csr8", 14, 8192), <<"irqoff", "irqoff", 4, 4, 0>>})
 
-(* call template <<"loc", dup, n, use_loc_if_exists>>; n = LAUTO: automatic  *)
-LocNumbers(nl) == {LAUTO, 0, nl - 1, nl, nl + 1} \cup (IF Quick THEN {} ELSE {-1, 1})
-LocAlpha(nl, k) == {<<"loc", d, n, r>> : d \in 0..(k - 1), n \in LocNumbers(nl), r \in {0, 1}}
+(* call template <<"loc", dup, n, use_loc_if_exists>>; n = LAUTO: automatic; *)
+(* boundary numbers 0, n_locs-1, n_locs, n_locs+1 (rich: also -1 and 1)      *)
+LocNumbers(nl, rich) == {LAUTO, 0, nl - 1, nl, nl + 1} \cup (IF rich THEN {-1, 1} ELSE {})
+LocAlpha(nl, k, rich) == {<<"loc", d, n, r>> : d \in 0..(k - 1), n \in LocNumbers(nl, rich), r \in {0, 1}}
 LocFill(nl)     == {<<"loc", 0, n, 0>> : n \in {LAUTO, 0, nl - 1, nl}}
 
 LocScenarios ==
-  { [id |-> "locs", cfgs |-> LocCfgs, pres |-> {<<>>}, len |-> IF Quick THEN 3 ELSE 4, alpha |-> {}],
+  { [mode |-> "x", id |-> "locs", cfgs |-> LocCfgs, pres |-> {<<>>}, len |-> 3, alpha |-> {}],
+    [mode |-> "x", id |-> "locs4", cfgs |-> IF Quick THEN {} ELSE {CsrCfg("csr4", 14, 16384), IrqCfg("irq4", 4), IrqCfg("irq2", 2)},
+     pres |-> {<<>>}, len |-> 4, alpha |-> {}],
     \* fill the handler completely: the allocator must refuse, not hand out n_locs
-    [id |-> "locfill", cfgs |-> LocCfgs, pres |-> {<<>>}, len |-> IF Quick THEN 5 ELSE 6, alpha |-> {}] }
+    [mode |-> "x", id |-> "locfill", cfgs |-> LocCfgs, pres |-> {<<>>}, len |-> IF Quick THEN 5 ELSE 6, alpha |-> {}],
+    [mode |-> "s", id |-> "locdeep", cfgs |-> LocCfgs, pres |-> {<<>>}, len |-> 7, alpha |-> {}] }
 
-LocAlphaOf(s, c, hh) == IF s = "locs" THEN LocAlpha(c[3], Len(hh) + 1) ELSE LocFill(c[3])
+LocAlphaOf(s, c, hh) == CASE s = "locs"    -> LocAlpha(c[3], Len(hh) + 1, ~Quick)
+                          [] s = "locs4"   -> LocAlpha(c[3], Len(hh) + 1, FALSE)
+                          [] s = "locdeep" -> LocAlpha(c[3], Len(hh) + 1, TRUE)
+                          [] s = "locfill" -> LocFill(c[3])
 
 LocResolve(hh, t) == <<t[1], IF t[2] = 0 THEN Fresh[Len(hh) + 1] ELSE hh[t[2]][2], t[3], t[4]>>
 
@@ -151,24 +170,33 @@ PlatCfgs == { <<"io3", PlatIO>> }
 
 (* calls <<op, name, subsignal ("" = none; lookup_request("name:sub")),       *)
 (* number (-1 = None), loose>>                                               *)
-PlatAlpha ==
+PlatAlphaOf(rich) ==
   LET ReqArgs == {<<"led", -1>>, <<"led", 0>>, <<"led", 1>>, <<"led", 2>>, <<"ser", -1>>, <<"ser", 0>>, <<"nope", -1>>}
       LkArgs  == {<<"led", "", -1>>, <<"led", "", 0>>, <<"led", "", 1>>, <<"ser", "", -1>>, <<"ser", "tx", -1>>,
                   <<"ser", "tx", 0>>, <<"nope", "", -1>>}
   IN  {<<"request", a[1], "", a[2], 0>> : a \in ReqArgs}
-      \cup {<<"request", a[1], "", a[2], 1>> : a \in IF Quick THEN {<<"led", -1>>, <<"led", 2>>, <<"nope", -1>>} ELSE ReqArgs}
+      \cup {<<"request", a[1], "", a[2], 1>> : a \in IF rich THEN ReqArgs ELSE {<<"led", -1>>, <<"led", 2>>, <<"nope", -1>>}}
       \cup {<<"request_all", nm, "", -1, 0>> : nm \in {"led", "ser", "nope"}}
       \cup {<<"request_remaining", nm, "", -1, 0>> : nm \in {"led"}}
       \cup {<<"lookup_request", a[1], a[2], a[3], 0>> : a \in LkArgs}
-      \cup {<<"lookup_request", a[1], a[2], a[3], 1>> : a \in IF Quick THEN {<<"led", "", 1>>, <<"nope", "", -1>>} ELSE LkArgs}
+      \cup {<<"lookup_request", a[1], a[2], a[3], 1>> : a \in IF rich THEN LkArgs ELSE {<<"led", "", 1>>, <<"nope", "", -1>>}}
 
 PlatScenarios ==
-  { [id |-> "plat", cfgs |-> PlatCfgs, pres |-> {<<>>}, len |-> IF Quick THEN 3 ELSE 4, alpha |-> PlatAlpha] }
+  { [mode |-> "x", id |-> "plat", cfgs |-> PlatCfgs, pres |-> {<<>>}, len |-> 3, alpha |-> PlatAlphaOf(~Quick)],
+    [mode |-> "x", id |-> "plat4", cfgs |-> IF Quick THEN {} ELSE PlatCfgs, pres |-> {<<>>}, len |-> 4,
+     alpha |-> PlatAlphaOf(FALSE)],
+    [mode |-> "s", id |-> "platdeep", cfgs |-> PlatCfgs, pres |-> {<<>>}, len |-> 7, alpha |-> PlatAlphaOf(TRUE)] }
 
 -----------------------------------------------------------------------------
-Scenarios == CASE Family = "bus"  -> BusScenarios
-               [] Family = "loc"  -> LocScenarios
-               [] Family = "plat" -> PlatScenarios
+AllScenarios == CASE Family = "bus"  -> BusScenarios
+                  [] Family = "loc"  -> LocScenarios
+                  [] Family = "plat" -> PlatScenarios
+Scenarios == {s \in AllScenarios : s.mode = Mode /\ s.cfgs # {}}
+
+(* size of each scenario's space, for the evidence: <<id, |cfgs|, |prefixes|, |alphabet|   *)
+(* (0: grows with the position, loc family), length>>                                      *)
+ASSUME PrintT(ToString(<<"SPACE", Family, Mode,
+                         {<<s.id, Cardinality(s.cfgs), Cardinality(s.pres), Cardinality(s.alpha), s.len>> : s \in Scenarios}>>))
 ScOf == [i \in {s.id : s \in Scenarios} |-> CHOOSE s \in Scenarios : s.id = i]
 
 Alpha(hh) == IF Family = "loc" THEN LocAlphaOf(sid, cfg, hh) ELSE ScOf[sid].alpha
@@ -185,14 +213,22 @@ Init == /\ sid \in DOMAIN ScOf
         /\ \E p \in ScOf[sid].pres : h = ResolveAll(<<>>, p)
         /\ left = ScOf[sid].len
 
-(* one more call; a maximal history is printed exactly once (it has one predecessor) *)
-Next == /\ left > 0
-        /\ \E t \in Alpha(h) :
-              /\ Usable(h, t)
-              /\ h' = Append(h, Resolve(h, t))
-        /\ left' = left - 1
-        /\ UNCHANGED <<sid, cfg>>
-        /\ (left' > 0 \/ PrintT(ToString(<<"H", Family, sid, cfg, h'>>)))
+(* one more call *)
+Extend == /\ left > 0
+          /\ \E t \in Alpha(h) :
+                /\ Usable(h, t)
+                /\ h' = Append(h, Resolve(h, t))
+          /\ left' = left - 1
+          /\ UNCHANGED <<sid, cfg>>
+
+(* a maximal history is printed exactly once: it is one state with one successor *)
+(* (also under tlc -simulate, which evaluates every successor before choosing)   *)
+Emit == /\ left = 0
+        /\ PrintT(ToString(<<"H", Family, sid, cfg, h>>))
+        /\ left' = -1
+        /\ UNCHANGED <<sid, cfg, h>>
+
+Next == Extend \/ Emit
 
 Spec == Init /\ [][Next]_vars
 =============================================================================
